@@ -2,7 +2,12 @@
 #include "v_harness.h"
 #include "automata_contracts.h"
 #include "lltdAutomata.c"
-#include "v_nocheck_push.h"      /* harness and specification code below: no implicit checks */
+#include "v_nocheck_push.h"
+#ifdef V_REPLAY
+#include <stdlib.h>
+#else
+void *malloc(size_t);
+#endif      /* harness and specification code below: no implicit checks */
 
 #ifndef FR_CAP
 #define FR_CAP 1476            /* 36 + 6 * 240: the property's quantifier range */
@@ -29,7 +34,7 @@ void h_derive(void) {
     V_ASSUME(ST_WF_NOFLAG(&tb) && v_st_unique_all(&tb));
     session_table *t = in.null_tab ? NULL : &tb;
     const uint8_t *our = in.null_our ? NULL : in.our;
-    uint8_t *f = in.frame;
+    V_EXACT_OBJECT(f, in.frame, FR_CAP);
     uint8_t op = f[17];
     uint16_t xid = v_be16(f + 30), gen = v_be16(f + 32), count = v_be16(f + 34);
     if (op == 0x00) V_ASSUME(count <= ST_MAX);      /* "as many as ... the frame holds" */
@@ -91,7 +96,12 @@ void h_derive_oob(void) {
     V_INPUT(h_derive_oob, struct in_derive_oob, in);
     V_ENV(in.cfg);
     g_j = 0;
-    int ev = derive_session_event(in.frame, (session_table *)0, in.our);
+    /* the receive buffer is an object of its own with exactly OOB_CAP bytes (as a member of the input record the bytes behind it
+     * were the own address: the scan then always "found" it at position 90 and never left the object) */
+    uint8_t *rx = (uint8_t *)malloc(OOB_CAP);
+    V_ASSUME(rx != (uint8_t *)0);
+    for (unsigned i = 0; i < OOB_CAP; i++) rx[i] = in.frame[i];
+    int ev = derive_session_event(rx, (session_table *)0, in.our);
     V_POST("C11.range", ev >= -1 && ev <= 7);
     V_CANARY("end");
 }
